@@ -38,6 +38,10 @@ CONFIGS = [
     ("listener-only-action", "lis", Cfg("sync", True, False, "direct"), "state", None, False, False),
     ("listener-only-action-async", "lis", Cfg("async", True, False, "facade"), "state", None, False, True),
     ("two-equal-listeners", "sync", Cfg("sync", True, False, "direct"), "state", None, False, "eq2"),
+    # the events are bound onto the model (bind_events_to) and fired through the model: the
+    # clone's model must drive the clone
+    ("events-bound-to-model", "sync", Cfg("sync", True, False, "direct"), "state", None, False, False),
+    ("events-bound-to-model-async", "async", Cfg("async", True, False, "facade"), "state", None, False, False),
 ]
 VALUES = ("s0", 0, "")
 MECHS = ("deepcopy", "pickle", "deepcopy-of-deepcopy", "pickle-of-deepcopy")
@@ -103,12 +107,16 @@ def run_case(ci, hist, cut, mech, suf_o, suf_c, order):
     msg = p.construct()
     if msg:
         return f"construct: {msg}", steps
+    style = "send"
+    if label.startswith("events-bound-to-model"):
+        p.impl.sm.bind_events_to(p.impl.sm.model)
+        style = "mixin"          # getattr(sm.model, event)(...)
     n = 0
     vals = {"g1": True}
     for ev in hist[:max(cut, 0)]:
         n += 1
         vals = {"g1": (n % 2 == 1)}
-        msg = p.send(ev, vals, tag=f"h{n}")
+        msg = p.send(ev, vals, tag=f"h{n}", style=style)
         steps += 1
         if msg:
             return f"history {ev}: {msg}", steps
@@ -148,7 +156,7 @@ def run_case(ci, hist, cut, mech, suf_o, suf_c, order):
         before = snapshot(other.impl.sm, field)
         for ev in suf:
             n += 1
-            msg = pr.send(ev, {"g1": (n % 2 == 0)}, tag=f"{who}{n}")
+            msg = pr.send(ev, {"g1": (n % 2 == 0)}, tag=f"{who}{n}", style=style)
             steps += 1
             if msg:
                 return f"{'original' if who == 'o' else 'clone'} suffix {ev}: {msg}", steps
